@@ -72,11 +72,13 @@ TRUSTED = [
 # ---------------------------------------------------------------------------------------------------------
 # the family
 
-def P(mode, nb, body, timeout=16, form="ctx", exc="interaction", data=(), flocks=(), holders=(), bkind="cancel", bexc=None):
+def P(mode, nb, body, timeout=16, form="ctx", exc="interaction", data=(), flocks=(), holders=(), bkind="cancel", bexc=None, obj=None):
     d = {"mode": mode, "timeout": timeout, "nb": nb, "form": form, "exc": exc, "bkind": bkind,
          "data": [list(d) for d in data], "flocks": [list(f) for f in flocks], "body": list(body)}
     if bexc:
         d["bexc"] = bexc
+    if obj is not None:
+        d["obj"] = obj
     if holders:
         d["holders"] = [{"b": b, "k": k, "end": end} for b, k, end in holders]
     return d
@@ -156,6 +158,24 @@ def fixed_family():
         P("locked", 2, ["expire.0.2.4", "adv.8", "get.0.2", "expire.0.1.4", "setx.1.1.7.8", "adv.2", "incr.1.2.4"], data=DATA4, form="decor"),
         P("locked", 3, ["expire.2.0.8", "setnx.1.3.1.-", "expire.0.1.16"], data=DATA4 + [(2, 0, 4, None)], bkind="base"),
     ]
+    # NESTED blocks on SHARED context objects: `T = cache.transaction(...)` kept by the program and entered again - nested in itself
+    # (once, twice, two inner blocks one after the other), first entered inside a decorated function / inside another object's
+    # block, next to blocks on objects of their own; bodies that go on after the inner block (every fault position there), that
+    # raise inside the inner block, that end with it.  An inner block must be transparent: the outermost `__aexit__` alone
+    # commits / rolls back / unlocks / resets the context.
+    for i, mode in enumerate(["fast", "locked", "serializable"]):
+        form = ["ctx", "decor"][i % 2]
+        out += [
+            P(mode, 1, ["set.0.0.1.-", "with.0", "set.0.1.2.-", "end", "set.0.2.3.-", "get.0.3"], data=DATA1, obj=0),
+            P(mode, 1, ["with.0", "set.0.0.1.-", "with.0", "incr.0.1", "end", "end", "del.0.2", "get.0.3"], data=DATA1, obj=0, exc="runtime"),
+            P(mode, 2, ["with.0", "set.0.0.1.-", "end", "get.1.1", "with.0", "del.1.2", "end", "set.1.0.2.8", "raise"], data=DATA2, obj=0),
+            P(mode, 1, ["with.0", "set.0.0.1.-", "with.0", "set.0.1.2.-", "end", "get.0.2", "end", "incr.0.3"], data=DATA1, obj=0, form="decor"),
+            P(mode, 2, ["with.1", "set.0.0.1.-", "with.-", "set.1.0.2.-", "end", "end", "with.d", "incr.0.1", "end", "get.1.1"], data=DATA2,
+              obj=0, form=form),
+            P(mode, 1, ["set.0.0.1.-", "with.0", "set.0.1.2.-", "raise", "end", "get.0.2"], data=DATA1, obj=0, bexc="cancel" if i == 1 else None),
+            P(mode, 2, ["expire.0.1.8", "with.0", "with.1", "setnx.1.0.2.-", "end", "end", "incr.1.1", "with.1", "get.0.2", "end"], data=DATA4,
+              obj=0, form=form, exc="runtime"),
+        ]
     # the kind of the BaseException-only failures alternates over the family
     for i, p in enumerate(out):
         if i % 3 == 1 and p["bkind"] == "cancel":
@@ -240,7 +260,19 @@ def gen_program(rng):
         body = body[:3]
     if rng.random() < 0.2:
         body.append("raise")
-    return P(mode, nb, body, timeout=timeout, form=rng.choice(["ctx", "decor"]),
+    obj = None
+    if rng.random() < 0.35:
+        # nested blocks: wrap one or two segments (properly nested or disjoint by construction: the second wrap is applied to
+        # the token list that already contains the first pair, at positions that do not split it)
+        obj = rng.choice([0, 0, 0, None])
+        for _ in range(rng.choice([1, 1, 2])):
+            o = rng.choice(["0", "0", "0", "1", "-", "d"])
+            lo = rng.randrange(0, len(body) + 1)
+            hi = rng.randrange(lo, len(body) + 1)
+            cand = body[:lo] + [f"with.{o}"] + body[lo:hi] + ["end"] + body[hi:]
+            if tf.valid_body(cand) and tf.valid_body(cand[lo + 1:hi + 1]):
+                body = cand
+    return P(mode, nb, body, timeout=timeout, form=rng.choice(["ctx", "decor"]), obj=obj,
              exc=rng.choice(["interaction", "runtime"]), data=data, flocks=flocks, holders=holders,
              bkind=rng.choice(["cancel", "cancel", "base"]), bexc=rng.choice([None, None, "cancel"]))
 
@@ -378,6 +410,36 @@ def classify(prog, obs):
             st.add("fault_while_multi_key_command_takes_its_locks")
             if any(lo <= j < hi for j in blocked):
                 st.add("fault_in_multi_key_command_that_had_to_wait_for_a_lock")
+    # nested blocks on shared context objects
+    toks = prog["body"]
+    if tf.valid_body(toks):
+        outer = tf.model_obj(prog)
+        for n, c in enumerate(toks[:len(starts)]):
+            if c.split(".")[0] != "with":
+                continue
+            st.add("nested_block_in_body")
+            o = c.split(".")[1]
+            same = outer is not None and o == str(outer)
+            depth = sum(1 for x in toks[:n] if x.split(".")[0] == "with") - sum(1 for x in toks[:n] if x == "end")
+            if same:
+                st.add("outer_blocks_own_object_entered_again")
+            if depth >= 1:
+                st.add("block_nested_twice_or_deeper")
+                if same and any(toks[m] == c for m in range(n) if tf.matching_end(toks, m) > n and toks[m].split(".")[0] == "with"):
+                    st.add("same_object_open_three_times")
+            if o == "d" or prog.get("form") == "decor":
+                st.add("shared_object_or_block_inside_a_decorated_function")
+            j = tf.matching_end(toks, n)
+            if j < len(starts):
+                left_at = starts[j]                     # the command counter when the inner block was left normally
+                if any(left_at <= i < body_end for i in failed):
+                    st.add("fault_in_outer_body_after_an_inner_block_was_left")
+                    if same:
+                        st.add("fault_in_outer_body_after_inner_block_of_the_same_object_was_left")      # class of seeded C16-10
+                if obs["body_raised"] and not any(i < body_end for i in failed) and obs["exc"] == "body":
+                    st.add("body_raised_after_or_inside_nested_block")
+            elif obs["body_raised"]:
+                st.add("exception_left_through_an_inner_block")
     # TTLs and the read-modify-write commands (expire / incr with a ttl / conditional set)
     if any(d[3] is not None for d in prog["data"]):
         st.add("initial_store_has_ttls")
@@ -501,7 +563,17 @@ def shrink(prog, faults, rels, clause):
         return dict(best[0], body=list(body))
 
     depth = len(best[1]) or 1
-    body = ddmin(best[0]["body"], lambda b: find_violation(with_body(b), depth, clause) is not None)
+    body = ddmin(best[0]["body"], lambda b: tf.valid_body(b) and find_violation(with_body(b), depth, clause) is not None)
+    # a `with` and its `end` that do not matter
+    n = 0
+    while n < len(body):
+        if body[n].split(".")[0] == "with":
+            j = tf.matching_end(body, n)
+            b2 = body[:n] + body[n + 1:j] + body[j + 1:]
+            if find_violation(with_body(b2), depth, clause) is not None:
+                body = b2
+                continue
+        n += 1
     p2 = with_body(body)
     f2 = find_violation(p2, depth, clause)
     if f2 is not None:
@@ -546,6 +618,10 @@ def shrink(prog, faults, rels, clause):
             if violates(p4, best[1], best[2], clause):
                 best = (p4, best[1], best[2])
                 break
+    if best[0].get("obj") is not None and not any(c == f"with.{best[0]['obj']}" for c in best[0]["body"]):
+        p5 = {k: v for k, v in best[0].items() if k != "obj"}
+        if violates(p5, best[1], best[2], clause):
+            best = (p5, best[1], best[2])
     if best[0].get("bexc") and not any(c == "raise" for c in best[0]["body"]):
         best = ({k: v for k, v in best[0].items() if k != "bexc"}, best[1], best[2])
     return best
@@ -581,6 +657,16 @@ def contention_text(prog, rels):
     return "; " + "; ".join(parts)
 
 
+def obj_text(prog):
+    if prog.get("obj") is None and not any(c.split(".")[0] == "with" for c in prog["body"]):
+        return ""
+    t = "; `with.i … end` = a nested `async with T[i]` on ONE shared cache.transaction() object T[i] (`-`/`d`: an object of its own / a decorated function)"
+    if prog.get("obj") is not None:
+        t += (f", the outermost block is `async with T[{prog['obj']}]`" if prog.get("form") != "decor"
+              else f", the outermost block is a function decorated with @T[{prog['obj']}]")
+    return t
+
+
 def kind_text(prog, faults):
     if not any(tf.fbase(f) for f in faults):
         return ""
@@ -598,7 +684,7 @@ def report_property(chk: Check, prog, faults, rels, clause, origin):
                  f"which then issued {rep['impl']['late_commands']}")
     chk.violation(
         f"after a transaction block ({sp['mode']} mode, {sp['nb']} backend(s), body {sp['body']}) in which backend command(s) "
-        f"{tf.show_faults(sf)} of the trace {rep['impl']['trace']} failed{kind_text(sp, sf)}{contention_text(sp, sr)}: {clause}; "
+        f"{tf.show_faults(sf)} of the trace {rep['impl']['trace']} failed{kind_text(sp, sf)}{contention_text(sp, sr)}{obj_text(sp)}: {clause}; "
         f"caller saw {rep['impl']['exc']}, "
         f"locks left {rep['impl']['locks']}{extra}",
         rep, signature=clause)
@@ -608,7 +694,7 @@ def report_correspondence(chk: Check, prog, faults, rels, keys, origin):
     rep = make_replay(prog, faults, rels, origin)
     chk.violation(
         f"correspondence broken: implementation differs from the model TxFault on {keys} for program {prog['body']} "
-        f"({prog['mode']}, {prog['nb']} backend(s)), faults {tf.show_faults(faults)}{kind_text(prog, faults)}{contention_text(prog, rels)}, but the property holds on this case",
+        f"({prog['mode']}, {prog['nb']} backend(s)), faults {tf.show_faults(faults)}{kind_text(prog, faults)}{contention_text(prog, rels)}{obj_text(prog)}, but the property holds on this case",
         dict(rep, broken="correspondence TxFault model <-> cashews/wrapper/transaction.py + cashews/backends/transaction.py"),
         signature=None, no_input=True)
 
@@ -704,6 +790,10 @@ def run(chk: Check) -> int:
             hist_prog["with_holders"] = hist_prog.get("with_holders", 0) + 1
         if any(c.split(".")[0] in ("setmany", "delmany") for c in prog["body"]):
             hist_prog["with_multi_key_commands"] = hist_prog.get("with_multi_key_commands", 0) + 1
+        if any(c.split(".")[0] == "with" for c in prog["body"]):
+            hist_prog["with_nested_blocks"] = hist_prog.get("with_nested_blocks", 0) + 1
+        if prog.get("obj") is not None and any(c == f"with.{prog['obj']}" for c in prog["body"]):
+            hist_prog["re_entering_the_outer_blocks_own_object"] = hist_prog.get("re_entering_the_outer_blocks_own_object", 0) + 1
         if any(c.split(".")[0] == "expire" for c in prog["body"]):
             hist_prog["with_expire"] = hist_prog.get("with_expire", 0) + 1
         if any(c.split(".")[0] in ("setx", "setnx") or (c.split(".")[0] == "incr" and len(c.split(".")) > 3) for c in prog["body"]):
@@ -748,7 +838,10 @@ def run(chk: Check) -> int:
                 "Programs: a fixed family (3 modes x 1/2/3 backends x context-manager/decorator x both exception classes x both "
                 "BaseException classes, normal / raising / cancelled bodies, single- and multi-key writes (set_many / delete_many over 2-3 keys), TTL groups and time advance, "
                 "initial stores whose keys carry deadlines, expire (of a stored key the transaction has not written, of a key written / deleted "
-                "earlier in the transaction, of a missing key, with timeout 0), incr with a ttl, set with a ttl, set(exist=True|False), contention "
+                "earlier in the transaction, of a missing key, with timeout 0), incr with a ttl, set with a ttl, set(exist=True|False), NESTED blocks on "
+                "shared context objects (ONE cache.transaction() object entered again inside its own transaction - once, twice nested, twice in "
+                "sequence -, first entered inside a decorated function, next to other shared objects and one-block objects; bodies going on after "
+                "the inner block - every fault position there -, raising inside it, ending with it), contention "
                 "with a lock held for ever, contention with 1-2 holders that commit or roll back) plus programs generated from VERIF_SEED "
                 "until the budget is used. "
                 "Exhaustive per program, not over programs. A case is non-trivial iff at least one command actually failed or the body "
@@ -773,8 +866,9 @@ def run(chk: Check) -> int:
                    "Task.cancel() from another task / the deadline bookkeeping of asyncio.timeout() (the CancelledError is injected as "
                    "what the failing command raises); "
                    "arbitrary interleavings of several tasks (C05; here other tasks only hold and release locks at command "
-                   "granularity); a holder that TAKES a lock while the victim's block runs; nested blocks and explicit "
-                   "tx.commit()/rollback() inside the body; commands other than set (with ttl / exist=) / incr (with ttl) / get / delete / "
+                   "granularity); a holder that TAKES a lock while the victim's block runs; a context object shared by two TASKS (C05); explicit "
+                   "tx.commit()/rollback() inside the body; the pass-through commands of TransactionBackend (set_add / tags, slice_incr, set_raw, "
+                   "incr_bits, set_remove, set_pop, clear: not transactional by design); commands other than set (with ttl / exist=) / incr (with ttl) / get / delete / "
                    "expire / set_many / delete_many (single backend per multi-key command; no get_expire / exists / delete_match / get_many "
                    "as body commands); programs with contention carry no TTLs and no expire (their clock is symbolic); the 0.1 s sleeps of the lock wait loop are symbolic (count of attempts), so the "
                    "clock of contended runs is not compared; Redis/diskcache backends",
